@@ -240,14 +240,14 @@ def build_runner(pid):
     return exe, out[-500:]
 
 
-def run_model(exe, cases_path, out_path, shards=16, timeout=3000):
+def run_model(exe, cases_path, out_path, shards=16, timeout=3000, per_shard=200):
     """run the model runner on cases (sharded), concatenate outputs in order"""
     lines = open(cases_path).read().splitlines()
     n = len(lines)
     if n == 0:
         open(out_path, "w").close()
         return True, ""
-    k = max(1, min(shards, n // 200 + 1))
+    k = max(1, min(shards, n // per_shard + 1))
     size = (n + k - 1) // k
     d = out_path + ".shards"
     shutil.rmtree(d, ignore_errors=True)
@@ -354,7 +354,8 @@ class Ctx:
         return time.time() - self.t0
 
 
-def correspondence(ctx, binname, nontrivial, gen_args=None, model_shards=16, replay_cases=None, harness_env=None):
+def correspondence(ctx, binname, nontrivial, gen_args=None, model_shards=16, replay_cases=None, harness_env=None,
+                   per_shard=200):
     """Generic exact correspondence run.
     Returns dict(ok, n, disagreements=[(idx, case, impl, model)], distinct_nontrivial, samples, error)."""
     pid = ctx.pid
@@ -381,7 +382,8 @@ def correspondence(ctx, binname, nontrivial, gen_args=None, model_shards=16, rep
         res["error"] = "harness run failed (rc=%d):\n%s" % (rc, o[-3000:])
         return res
     t1 = time.time()
-    ok, msg = run_model(runner, os.path.join(out, "cases.txt"), os.path.join(out, "model.txt"), shards=model_shards)
+    ok, msg = run_model(runner, os.path.join(out, "cases.txt"), os.path.join(out, "model.txt"), shards=model_shards,
+                        per_shard=per_shard)
     res["model_s"] = round(time.time() - t1, 1)
     if not ok:
         res["error"] = "model runner failed:\n" + msg
